@@ -116,3 +116,27 @@ Lemma eqmap_refl : forall (A : Type) (l : list (string * A)), eqmap l l.
 Proof. intros A l k; reflexivity. Qed.
 Lemma eqmap_aset : forall (A : Type) k (v : A) l l', eqmap l l' -> eqmap (aset k v l) (aset k v l').
 Proof. intros A k v l l' H k'. rewrite !alookup_aset, H. reflexivity. Qed.
+
+(* ---------- counting ':' : T::m determines T and m as soon as ONE side consists of identifiers ---------- *)
+Fixpoint ncolon (s : string) : nat :=
+  match s with
+  | EmptyString => 0
+  | String c r => (if Ascii.eqb c colon then 1 else 0) + ncolon r
+  end.
+Lemma ncolon_app : forall a b, ncolon (a +++ b) = ncolon a + ncolon b.
+Proof. induction a; simpl; intros; [reflexivity|rewrite IHa; lia]. Qed.
+Lemma no_colon_ncolon : forall s, no_colon s = true <-> ncolon s = 0.
+Proof.
+  induction s as [|c r IH]; simpl; [tauto|].
+  destruct (Ascii.eqb c colon); simpl; [split; [discriminate|lia]|exact IH].
+Qed.
+Lemma method_key_inj_r : forall t m t' m', no_colon t' = true -> no_colon m' = true ->
+  method_key t m = method_key t' m' -> t = t' /\ m = m'.
+Proof.
+  intros t m t' m' Ht' Hm' E.
+  assert (ncolon (method_key t m) = ncolon (method_key t' m')) as N by (rewrite E; reflexivity).
+  unfold method_key in N. rewrite !ncolon_app in N. simpl in N.
+  apply no_colon_ncolon in Ht'. apply no_colon_ncolon in Hm'.
+  assert (ncolon t = 0) as Z by lia. apply no_colon_ncolon in Z. apply no_colon_ncolon in Ht'.
+  eapply sep_inj; eauto.
+Qed.
